@@ -2,12 +2,15 @@
 
 proof side : lean/Heph/Props/C02.lean — theorems about lean/Heph/Model/TransJava.lean (the
              state-threading port of src/translators/java.py): reset/history independence, text
-             shape, bracket balance (fragment), and the batch independence of the javac
+             shape, bracket balance (full node language: javaText_balanced_full), and the batch independence of the javac
              diagnostics analysis (re-export of C14).
 tie to code: (a) byte equality of the model's text (driver op trans.java) with
              `utils.translate_program(JavaTranslator(pkg), p)` for programs of the real pipeline
              (`pipeline.run_many`: Generator, then TypeErasure; all 16 switch settings), for the
              'gen' and the 'erase' stage; (a') model text with a translation history == without.
+             (a'') the Lean bracket scanner (driver op java.scan) on every REAL text + the Lean deciders of the
+             theorem's hypotheses on the exported program: "covered by theorem" vs "outside fragment" is counted;
+             an unbalanced real text of a covered program is a failing input.
              (b) javac itself, the external judge: every real translation is written to
              <tmp>/src/<pkg>/Main.java (unique package per program), ONE batch is compiled with the
              tool's own command line (`JavaCompiler(<tmp>/src).get_compiler_cmd()`, run the way
@@ -183,7 +186,59 @@ def text_stream(run, st, results):
             run.log("TEXT DIFF seed=%s stage=%s at %d in %r\n   real : %r\n   model: %r" % (
                 spec["seed"], stage, i, rec["enclosing_declaration"], rec["real"], rec["model"]))
     run.cov["node_kinds_visited"] = dict(sorted(kinds.items()))
+    balance_stream(run, st, metas, answers)
     return files, reqs, metas
+
+
+def balance_stream(run, st, metas, answers):
+    """bracket balance (javaText_balanced_full): the Lean scanner `Spec/JavaBalance.scan` (driver op java.scan) runs on
+    every REAL emitted text; the hypotheses of the theorem (atomsOKL decls, envOK context, bracket-free package: `hyps`
+    of the trans.java answer, computed by the Lean deciders on the exported program) say whether the theorem speaks
+    about the program.  unbalanced + hypotheses hold = failing input; unbalanced + hypotheses do not hold = counted.
+    A mutant of every text (one closing brace dropped / one parenthesis added) must be rejected by the scanner."""
+    reals = [m[2] for m in metas]
+    mutants = []
+    for t in reals:
+        i = t.rfind("}")
+        mutants.append(t[:i] + t[i + 1:] if i >= 0 else t + "(")
+    ans = common.run_driver([{"op": "java.scan", "text": t} for t in reals + mutants])
+    b = st.setdefault("balance", {"texts_scanned": 0, "balanced": 0, "covered_by_theorem": 0, "outside_fragment": 0,
+                                  "outside_fragment_unbalanced": 0, "covered_and_unbalanced": 0,
+                                  "model_text_balanced": 0, "scanner_mutants_rejected": 0, "scanner_mutants": 0,
+                                  "hypothesis_failing_part": {}})
+    n = len(reals)
+    for k, ((spec, stage, real, _), a) in enumerate(zip(metas, answers)):
+        sc = ans[k]
+        if "error" in sc or "error" in ans[n + k]:
+            raise HarnessError("driver error (java.scan): %s" % (sc.get("error") or ans[n + k].get("error")))
+        if "hyps" not in a:
+            raise HarnessError("driver answer without `hyps` (stale hephdrv?)")
+        run.tally("ops", "java.scan")
+        b["texts_scanned"] += 1
+        b["scanner_mutants"] += 1
+        b["scanner_mutants_rejected"] += 0 if ans[n + k]["r"] else 1
+        b["model_text_balanced"] += 1 if a.get("balanced") else 0
+        ok, hyps = bool(sc["r"]), bool(a["hyps"])
+        b["balanced"] += 1 if ok else 0
+        if hyps:
+            b["covered_by_theorem"] += 1
+        else:
+            b["outside_fragment"] += 1
+            for part, v in sorted(a.get("hyps_parts", {}).items()):
+                if not v:
+                    b["hypothesis_failing_part"][part] = b["hypothesis_failing_part"].get(part, 0) + 1
+        if not ok:
+            if hyps:
+                b["covered_and_unbalanced"] += 1
+                st.setdefault("unbalanced", []).append({"replay": replay_key(spec, stage), "stage": stage, "text": real})
+            else:
+                b["outside_fragment_unbalanced"] += 1
+        if hyps and not a.get("balanced"):
+            # the theorem says this cannot happen for the MODEL's text: the driver and the proved model disagree
+            st["diffs"].append({"kind": "theorem-contradicted-by-driver", "replay": replay_key(spec, stage)})
+    if b["scanner_mutants_rejected"] != b["scanner_mutants"]:
+        raise HarnessError("the bracket scanner accepted a text with a dropped closing brace")
+    run.cov["bracket_balance"] = b
 
 
 def history_stream(run, st, reqs, metas, k):
@@ -438,6 +493,11 @@ def verdict(run, st, proofs_ok):
             rec["emitted_file"] = r["file"]["text"]
         run.log("javac rejection %s x%d: %s" % (sig, rec["count_in_this_run"], " | ".join(r["diagnostic"][:4])[:300]))
         run.violation(rec, signature=sig)
+    for u in st.get("unbalanced", [])[:3]:
+        run.violation(dict(u["replay"], kind="failing-input", emitted_file=u["text"],
+                           what="brackets of the emitted Main.java are not balanced although the hypotheses of "
+                                "javaText_balanced_full hold for the exported program"),
+                      signature="java:%s:unbalanced-brackets" % u["stage"])
     for d in st["batch_diffs"][:3]:
         rec = dict(file_replay(d["file"]), kind="failing-input", what="batching changed a verdict",
                    **{k: v for k, v in d.items() if k != "file"})
@@ -477,7 +537,8 @@ def check(run):
     run.assumptions += ASSUMPTIONS
     run.cov["rule"] = (
         "case = (seed, 4 generator switches, max_depth, stage gen|erase) of the real pipeline for Java (max_depth <= %d, cap <= %ds); compared: "
-        "(a) model text == JavaTranslator text byte for byte; (b) javac verdict of the emitted file in one batch (tool's command "
+        "(a) model text == JavaTranslator text byte for byte; (a'') the Lean bracket scanner on the real text says balanced whenever the "
+        "Lean deciders of javaText_balanced_full's hypotheses hold for the exported program (see bracket_balance); (b) javac verdict of the emitted file in one batch (tool's command "
         "line + real analyze_compiler_output) == accepted, and == its verdict when compiled alone / in batches of other sizes. "
         "non-trivial = program with more than one top-level declaration; distinct by (seed, switches, stage)" % (MAX_DEPTH, CAP))
     run.cov["exhaustive"] = False
